@@ -726,6 +726,11 @@ ETH_BAD = [
   ("short_list", [1, 2, 3]), ("long_list", [1, 2, 3, 4, 5, 6, 7]),
   ("short_tuple", (1, 2, 3, 4, 5)), ("long_bytearray", bytearray(7)),
   ("int", 5), ("float", 1.5),
+  # a number is not an address, whichever number it is (the length of one, the
+  # value of one, ...)
+] + [("int_%d" % i, i) for i in (0, 1, 4, 6, 7, 8, 12, 16, 17, 48, 255, 256)] + [
+  ("int_48bit", 0x0000aabbccddeeff & 0xffffffffffff), ("int_neg", -6),
+  ("float_6", 6.0), ("true", True),
 ]
 
 
@@ -734,13 +739,32 @@ def case_ethbad (c, rep):
   arg = c["arg"]
   if c.get("as") == "tuple": arg = tuple(arg)
   if c.get("as") == "bytearray": arg = bytearray(arg)
-  try:
-    r = A.EthAddr(arg)
-  except Exception:
-    rep.count("ethbad")
-    return
-  _fail(rep, "eth malformed accepted class=%s" % c["cls"],
-        "EthAddr(%r) returned %r instead of rejecting" % (arg, r), c)
+  args = [("", arg)]
+  if isinstance(arg, int) and not isinstance(arg, bool):
+    class Idx (object):
+      def __init__ (self, v): self.v = v
+      def __index__ (self): return self.v
+      def __repr__ (self): return "<object with __index__ %d>" % self.v
+    args.append((" (as an object with __index__)", Idx(arg)))
+  for how, arg in args:
+    try:
+      r = A.EthAddr(arg)
+    except Exception:
+      pass
+    else:
+      _fail(rep, "eth malformed accepted class=%s%s" % (c["cls"], how),
+            "EthAddr(%r) returned %r instead of rejecting" % (arg, r), c)
+    # what is not an address is not equal to one either
+    for raw in (b"\0" * 6, b"\xff" * 6, b"\1\2\3\4\5\6"):
+      a = A.EthAddr(raw)
+      try:
+        eq, ne = (a == arg), (a != arg)
+      except Exception:
+        continue
+      rep.count("addresses_compared_with_non_addresses")
+      if eq or not ne:
+        _fail(rep, "eth address equal to a malformed one class=%s%s" % (c["cls"], how),
+              "EthAddr(%r) == %r is %r, != is %r" % (raw, arg, eq, ne), c)
   rep.count("ethbad")
 
 
